@@ -20,4 +20,17 @@ PROPS = {
         "assumptions": ["values are not NaN", "theorems are over an arbitrary linear order, executable model over IEEE doubles"],
         "theorems": ["PMH.C15.tracker_refines_spec", "PMH.C15.max_spec", "PMH.C15.possible_iff", "PMH.C15.c15_all"],
     },
+    "C19": {
+        "module": "PMH.Props.C19",
+        "pre": ["translate_invhash"],
+        "extra_axiom_pattern": r"\._native\.bv_decide\.ax_",
+        "level_text": "full: the Lean definitions are regenerated from src/invhash.rs on every run (translator), and for them both round trips are theorems for all 2^32 / 2^64 values (per-statement inversion lemmas: xor-shift and add-shift steps by bv_decide, multiplication steps algebraically), hence bijectivity; the generated definitions are additionally diffed against the compiled Rust on structured and random values, and the thorough tier sweeps all 2^32 inputs of the 32-bit pair in both directions on the implementation",
+        "level_note": "trusted: Lean kernel; bv_decide's LRAT checker (each call adds a `._native.bv_decide.ax_*` axiom, accepted for C19 only and listed in the evidence); tools/translate_invhash.py (Rust subset -> BitVec; cross-checked by the correspondence run); Rust wrapping_* semantics = BitVec arithmetic",
+        "technique": "source-to-Lean translation of invhash.rs on every run + Lean 4 theorems (bv_decide per step, algebra for multiplications) + differential run",
+        "rule": "structured 32/64-bit values (0, all-ones, single bits, 2^k+-1, masks at every shift amount of the code) plus random values; each value goes through hash and inverse in Rust and in the generated Lean definitions; non-trivial = every value other than 0/1; thorough adds the exhaustive 2^32 sweep and 2^28 random 64-bit values (implementation only)",
+        "trusted_base": TB_COMMON[:1] + ["axioms: propext, Quot.sound, Classical.choice + one `._native.bv_decide.ax_*` per bv_decide call (compiled LRAT certificate checker)",
+                          "tools/translate_invhash.py (model GENERATED from /repo/src/invhash.rs on every run)", "correspondence run generated-Lean vs compiled Rust"],
+        "assumptions": ["Rust wrapping_add/sub/mul, <<, >>, ^, ! on u32/u64 are BitVec +,-,*,<<<,>>>,^^^,~~~"],
+        "theorems": ["PMH.C19.int64_inverse_hash", "PMH.C19.int64_hash_inverse_id", "PMH.C19.int32_inverse_hash", "PMH.C19.int32_hash_inverse_id"],
+    },
 }
